@@ -260,6 +260,7 @@ def run(ctx):
     definedness_has_one_judge(ctx)
     backward_trims_test_the_character_they_drop(ctx)
     leftover_identifiers_count_as_zero(ctx)
+    a_comment_does_not_hide_a_directive(ctx)
 
 
 def manifest_keys(ctx):
@@ -788,3 +789,52 @@ def leftover_identifiers_count_as_zero(ctx):
                    "a leftover identifier becomes 0 whenever expand_undefined is set" if has_flag and not bad else
                    ("the substitution also requires `%s`: a macro's own name, left unexpanded, stays in the expression" % show(bad[0])[:70] if bad else "the substitution is not tied to expand_undefined"))
     ctx.floor("R09.14", "zero substitutions in expand_manifests", n, 1)
+
+
+def a_comment_does_not_hide_a_directive(ctx):
+    """R09.15: after translation phase 3 a comment is one space, so `/* c */ #else` is a directive like ` #else`
+    ([cpp]/2: "first character in the source file or follows white space containing at least one new-line", comments
+    being white space by then).  Both directive tests read `c == '#' && _start_of_line`, and get() clears the flag on
+    every character that is neither space nor `#` - including the `/` and `*` of a comment.  Unless the comment skipper
+    writes the flag back, a directive behind a comment is missed: a group that must be kept is skipped (F-C09c, known:
+    `#if 0` / `/* c */ #else` / `int kept;` / `#endif` loses `kept`).  Decided structurally: some function of the
+    comment-skipping family assigns `_start_of_line`."""
+    db = ctx.db
+    ctx.rule("R09.15", "the comment skipper restores CPPPreprocessor::_start_of_line, which get() clears on the characters of a comment")
+    fam = [g for g in db.functions if g.name in ("CPPPreprocessor::skip_comment", "CPPPreprocessor::skip_c_comment", "CPPPreprocessor::skip_whitespace")]
+    tests = 0
+    for g in db.functions:
+        if not g.name.startswith("CPPPreprocessor::"):
+            continue
+        for y in g.walk():
+            if y.get("k") == "bin" and y.get("op") == "&&" and any(z.get("k") == "mem" and (z.get("n") or "").endswith("::_start_of_line") for z in walk(y)) \
+                    and any(const_int(z) == ord("#") for z in walk(y)):
+                tests += 1
+                break
+    if len(fam) < 2:
+        ctx.broken("R09.15: skip_comment / skip_c_comment not found")
+        return
+    writes = []
+    for g in fam:
+        for y in g.walk():
+            t = assigned_target(y)
+            if t and (field_of(strip_casts(peel(t[0]))) or "").endswith("::_start_of_line"):
+                writes.append((g, y))
+    c = next(g for g in fam if g.name.endswith("skip_c_comment") or g.name.endswith("skip_comment"))
+    premise = False
+    for g in db.functions:
+        if g.name != "CPPPreprocessor::get":
+            continue
+        for y in g.walk():
+            t = assigned_target(y)
+            if t and (field_of(strip_casts(peel(t[0]))) or "").endswith("::_start_of_line") and const_int(t[1]) == 0:
+                conds = [a.get("c") for a in g.ancestors(y) if a.get("k") == "if"]
+                premise = not any(const_int(z) == ord("/") for cnd in conds if cnd for z in walk(cnd))
+    if not premise:
+        ctx.ob("R09.15", "skip_c_comment|_start_of_line|survives-a-comment", True, c.loc(), "get() does not clear the flag on the characters of a comment")
+        ctx.floor("R09.15", "directive tests on `#` and _start_of_line", tests, 2)
+        return
+    ctx.ob("R09.15", "skip_c_comment|_start_of_line|survives-a-comment", bool(writes), writes[0][0].loc(writes[0][1]) if writes else c.loc(),
+           "the flag is written back after a comment" if writes else
+           "no comment skipper writes _start_of_line: `/* c */ #else` in a skipped group (and `/* c */ #if` in kept text) is not taken as a directive")
+    ctx.floor("R09.15", "directive tests on `#` and _start_of_line", tests, 2)
